@@ -29,6 +29,8 @@ function* ownGroups() {
     return { gid: `C12-own-${k++}`, src: b.source(), syntax: 'jsx', spec: { thunks: [{ name: 't0' }], env: b.env }, feature: `own|${feature}`, variants, pairs: ['p0', 'p1', 'p2'] };
   };
   const PAREN = ['<C0>{(G)}</C0>', '<C0>{(GS)}</C0>', '<C0>{(F())}</C0>', '<C0>{(() => [F()])}</C0>', '<C0>{(function () { return [G]; })}</C0>', '<C0>{({ default: () => [G] })}</C0>', '<div>{({ a: 1 })}</div>', '<div>{(G)}</div>', '<>{(F())}</>', '<C0>{((G))}</C0>', '<C0 v-slots={(GS)}>{(G)}</C0>', '<div>{(null)}</div>', '<C0>{(G)}{(F())}</C0>',
+    // user slots whose names look internal
+    '<C0 v-slots={{ _footer: () => [G], $stable: () => [G], header: () => [F()] }}>body</C0>', '<C0 v-slots={{ _footer: () => [G] }} />', '<C0 v-slots={{ _: () => [G], __x: () => [F()] }}>{G}</C0>',
     // a lone function child of a host that does not take slots
     '<KeepAlive>{() => [F()]}</KeepAlive>', '<div>{() => [G]}</div>', '<>{() => [G]}</>', '<x-el v-slots={GS}>{(item) => [item]}</x-el>', '<div>{function () { return [G]; }}</div>', '<KeepAlive v-slots={GS}>{() => [G]}</KeepAlive>'];
   for (const j of PAREN) for (const ctx of ['arrow', 'fn']) yield mk([], ctx === 'arrow' ? `export const t0 = () => ${j};` : `export function t0() {\n  return ${j};\n}`, `paren|${j}|${ctx}`);
@@ -48,7 +50,7 @@ export function* generate({ tier, seed }) {
   for (const [name, mod] of Object.entries(SOURCES)) {
     for (const g of mod.generate({ tier, seed })) {
       // short child sequences of C02 are kept in full (single children are where optimize takes shortcuts)
-      const shortC02 = name === 'C02' && g.spec.thunks[0].feature && String(g.spec.thunks[0].feature).startsWith('child|') && (() => { const ks = String(g.spec.thunks[0].feature).split('|')[2].split(','); return ks.length <= 2 || (ks.length === 3 && ['comment', 'empty'].includes(ks[1])); })();
+      const shortC02 = name === 'C02' && g.spec.thunks[0].feature && String(g.spec.thunks[0].feature).startsWith('child|') && (() => { const ks = String(g.spec.thunks[0].feature).split('|')[2].split(','); return ks.length <= 2 || (ks.length === 3 && ['comment', 'empty', 'textSpace'].includes(ks[1])); })();
       if (!shortC02 && rng() > keep[name]) continue;
       if (name === 'C06') {
         if (g.spec.thunk !== 't0') continue;
